@@ -26,9 +26,9 @@ PGet(m, k) == m[k]
 PBatchGet(m, ks) == [i \in 1..Len(ks) |-> m[ks[i]]]
 PPut(m, k, v) == [m EXCEPT ![k] = v]
 PDelete(m, k) == [m EXCEPT ![k] = None]
-\* duplicates inside one batch put: any of the values given for the key may win
-PBatchPutOK(m, ks, vs, m2) ==
-  \A k \in Keys : IF k \in SetOfSeq(ks) THEN \E i \in 1..Len(ks) : ks[i] = k /\ m2[k] = vs[i] ELSE m2[k] = m[k]
+\* a batch put is the puts in order: for a key named several times the last value wins
+PBatchPut(m, ks, vs) ==
+  [k \in Keys |-> IF k \in SetOfSeq(ks) THEN vs[Max({i \in 1..Len(ks) : ks[i] = k})] ELSE m[k]]
 PBatchDelete(m, ks) == [k \in Keys |-> IF k \in SetOfSeq(ks) THEN None ELSE m[k]]
 PDeleteRange(m, s, e) == [k \in Keys |-> IF InRange(k, s, e) THEN None ELSE m[k]]
 PScanKeys(m, s, e, limit) == Take(Asc(Live(m, {k \in Keys : InRange(k, s, e)})), limit)
